@@ -269,6 +269,18 @@ func (e *Engine) vrtCall(name string, f *ssa.Function, args []Val) (Val, bool) {
 	case "Note":
 		e.notes = append(e.notes, noteRec{label: strArg(args[0]), v: args[1]})
 		return nil, true
+	case "CaptureStart":
+		e.out = nil
+		return nil, true
+	case "Captured":
+		var out Val = Str("")
+		for _, ev := range e.out {
+			if ev.kind == "print" {
+				out = concat(out, ev.text)
+			}
+		}
+		e.out = nil
+		return out, true
 	case "IsSymbolic":
 		return bsc(true), true
 	case "Output":
